@@ -217,6 +217,51 @@ Proof. rewrite lz_eqb_1. unfold ends_cr, lastb. destruct line; reflexivity. Qed.
 Lemma take1_lf b : lz_eqb (take 1 b) [10] = starts_lf b.
 Proof. rewrite lz_eqb_1. destruct b as [|x [|y b]]; reflexivity. Qed.
 
+Lemma s_read_len k f : 0 <= k -> len (fst (s_read k f)) <= k.
+Proof.
+  intros Hk. unfold s_read, len, take.
+  destruct (s_shorts f) as [|b bs]; cbn [fst]; rewrite firstn_length; lia.
+Qed.
+
+Lemma truthy_bytes d : Py.truthy (PBytes d) = nonempty d.
+Proof. destruct d; reflexivity. Qed.
+
+Ltac rest_tac IH line size t block b f :=
+    rewrite pfind_crlf by lia; cbn [bind pge pcmp as_int Py.truthy];
+    let p := fresh "p" in let Ef := fresh "Ef" in
+    destruct (find_crlf (take (size - len line) b)) as [p|] eqn:Ef;
+    [ pose proof (find_crlf_nonneg _ _ Ef);
+      replace (p >=? 0) with true by (symmetry; apply Z.geb_le; lia);
+      cbn [Py.truthy padd arith as_int bind];
+      rewrite pslice_take, pslice_drop by lia; cbn [bind];
+      cbn [padd bind]; reflexivity
+    | change (-1 >=? 0) with false; cbn [Py.truthy pis_not_none bind];
+      rewrite pslice_take, pslice_drop by lia; cbn [bind];
+      cbn [padd bind plen];
+      fold (len (line ++ take (size - len line) b));
+      cbn [plt pcmp as_int bind Py.truthy];
+      let El2 := fresh "El2" in
+      destruct (len (line ++ take (size - len line) b) <? size) eqn:El2; cbn [Py.truthy];
+      [ apply Z.ltb_lt in El2; cbn [as_int bind]; rewrite pmin2_int; cbn [bind];
+        rewrite pmin2_int; cbn [bind pnot Py.truthy]; rewrite negb_involutive;
+        let En := fresh "En" in
+        destruct (Z.min (Z.min t (size - len (line ++ take (size - len line) b))) block =? 0) eqn:En;
+        [ reflexivity
+        | apply Z.eqb_neq in En; rewrite stream_read_eq;
+          let data := fresh "data" in let f' := fresh "f'" in let Er := fresh "Er" in
+          destruct (s_read (Z.min (Z.min t (size - len (line ++ take (size - len line) b))) block) f)
+            as [data f'] eqn:Er;
+          cbn [fst snd bind plen]; fold (len data);
+          rewrite inj_log_app; cbn [bind psub arith as_int pnot];
+          rewrite truthy_bytes; cbn [Py.truthy pis_none bind];
+          let Ed := fresh "Ed" in
+          destruct (nonempty data) eqn:Ed; cbn [negb Py.truthy];
+          [ apply IH; [|assumption];
+            pose proof (s_read_len (Z.min (Z.min t (size - len (line ++ take (size - len line) b))) block) f ltac:(lia));
+            rewrite Er in *; cbn [fst] in *; lia
+          | reflexivity ] ]
+      | apply IH; assumption ] ].
+
 Lemma readline_loop_eq fuel : forall block size line b t f q clk a1 a2 a3 a4 a5,
   0 <= t -> 0 <= block ->
   gen_cached_readline_loop_1 fuel PNone (PInt block) (PInt size) clk a1 (PBytes b) a2
@@ -230,6 +275,24 @@ Proof.
   apply Z.ltb_lt in Et. pose proof (len_nonneg line) as Hl.
   cbn [psub arith as_int bind].
   rewrite last_slice. fold (lastb line). cbn [bind]. unfold peq at 1. cbn [pv_eqb Py.truthy].
-  rewrite lastb_cr.
-  Show.
-Abort.
+  rewrite lastb_cr. cbn [bind Py.truthy].
+  rewrite (pslice_take b 1) by lia. cbn [bind]. unfold peq at 1. cbn [pv_eqb Py.truthy].
+  rewrite take1_lf. cbn [bind Py.truthy].
+  destruct (ends_cr line); destruct (starts_lf b); cbn [andb].
+  - rewrite pslice_drop by lia. cbn [bind]. rewrite padd_bytes. reflexivity.
+  - rest_tac IH line size t block b f.
+  - rest_tac IH line size t block b f.
+  - rest_tac IH line size t block b f.
+Qed.
+
+Theorem gen_cached_readline_eq b t f block size clk fuel :
+  0 <= t -> 0 <= block ->
+  gen_cached_readline (PBytes b) (PInt t) (inj_stream f) PNone (PInt block) (PInt size) clk fuel
+  = inj_out (readline fuel block size (St b t f)).
+Proof.
+  intros Ht Hb. unfold gen_cached_readline, readline, eff_size. cbn [buf todo].
+  cbn [plt pcmp as_int bind Py.truthy pis_not_none].
+  destruct (size <? 0); cbn [Py.truthy plen bind padd arith as_int];
+    change (PList []) with (inj_log []); change 0 with (len []) at 1;
+    apply readline_loop_eq; assumption.
+Qed.
